@@ -10,7 +10,7 @@ namespace Panrpc.Sys
 theorem linv_step (sk : Skeleton) (ha : Async sk) {s s' : State} (a : Act)
     (h : LInv s) (hs : step sk s a = some s') : LInv s' := by
   obtain ⟨h1, h2⟩ := h
-  obtain ⟨a1, a2, a3, a4, a5⟩ := ha
+  obtain ⟨a1, a2, a3, a4, a5, a6⟩ := ha
   cases a <;> simp only [step, startCall] at hs
   all_goals (repeat' split at hs) <;> (try simp at hs) <;> (try subst hs)
   all_goals refine ⟨?_, ?_⟩
